@@ -22,6 +22,7 @@ type lcDesc struct {
 	Late      bool     `json:"late"`            // a client that dials only after a Shutdown has returned
 	Timeout   bool     `json:"timeout"`         // serve with an idle timeout (C15)
 	Fires     int      `json:"fires"`           // accept-deadline expiries available to the timer thread
+	AccFail   bool     `json:"accfail,omitempty"` // the first Accept that finds a client waiting fails with a temporary (non-timeout) error
 	Plain     int      `json:"plain,omitempty"` // with Timeout and two rounds: round Plain-1 is served without a timeout (0 = every round has one)
 	NoListener bool    `json:"nolistener,omitempty"` // before the first round DoListen is called on the service while no listener is installed (it must fail and leave the service as it was)
 	OwnCtx    bool     `json:"ownctx,omitempty"` // every round is served under its own context, cancelled by the caller as soon as the serving call has returned (defer cancel())
@@ -130,6 +131,9 @@ func lcBody(d lcDesc) func() {
 		for r := 0; r < d.Rounds; r++ {
 			l := vnet.NewListener(fmt.Sprintf("L%d", r))
 			r := r
+			if d.AccFail {
+				l.TempFail = 1
+			}
 			l.Hook = func(ev string) {
 				if vsched.Cur().Name != "M" {
 					return
@@ -635,6 +639,13 @@ func scenariosC14(tier string) []Scen {
 		descs = append(descs, lcDesc{Conns: append([]string{"block"}, cs...), Shutdowns: 1, Cancel: true, Rounds: 1})
 		// reuse: two rounds
 		descs = append(descs, lcDesc{Conns: cs, Shutdowns: 2, Rounds: 2})
+		if len(cs) >= 1 && len(cs) <= 2 && (len(cs) == 1 || strings.HasSuffix(cs[1], "hold")) {
+			// serving with an idle timeout: accept deadlines expire while the connection is open (the loop goes on),
+			// then a Shutdown; everything above holds just the same
+			for _, fires := range []int{1, 2} {
+				descs = append(descs, lcDesc{Conns: cs, Shutdowns: 1, Rounds: 1, Timeout: true, Fires: fires})
+			}
+		}
 		if len(cs) <= 1 {
 			// a failed DoListen (no listener installed) first, then an ordinary run
 			descs = append(descs, lcDesc{Conns: cs, Shutdowns: 1, Rounds: 1, NoListener: true})
@@ -694,6 +705,9 @@ func lcCheck15(x *vsched.Exec) (string, string) {
 			}
 			if d.Cancel {
 				applicable = true
+			}
+			if l.TempFailed > 0 {
+				applicable = true // the environment failed the accept: the serving call reports that error
 			}
 			if st.bound[r] != 0 && st.ret[r] != 0 && !applicable {
 				return fmt.Sprintf("serving without a timeout and without Shutdown stopped by itself (returned %q)", st.retVal[r]), "symptom=stopped-by-itself"
@@ -787,6 +801,13 @@ func scenariosC15(tier string) []Scen {
 		descs = append(descs, lcDesc{Conns: cs, Rounds: 2, Timeout: true, Fires: 2, Shutdowns: 1})
 		descs = append(descs, lcDesc{Conns: cs, Rounds: 2, Timeout: true, Fires: 3, Plain: 2})
 		descs = append(descs, lcDesc{Conns: cs, Rounds: 2, Timeout: true, Fires: 2, Plain: 1, Shutdowns: 1})
+		if len(cs) >= 1 && (cs[0] == "call" || cs[0] == "idleclose") {
+			// a transient accept failure at the moment a client connects, no accept deadline expiring anywhere: whatever
+			// the serving call does about it, it does not report an idle time-out
+			for _, tm := range []bool{false, true} {
+				descs = append(descs, lcDesc{Conns: cs, Rounds: 1, Timeout: tm, AccFail: true})
+			}
+		}
 		// no timeout: never stops by itself, never arms a deadline
 		descs = append(descs, lcDesc{Conns: cs, Rounds: 1, Timeout: false, Fires: 1})
 		descs = append(descs, lcDesc{Conns: cs, Rounds: 1, Timeout: false, Fires: 1, Shutdowns: 1})
